@@ -7,18 +7,19 @@ BARE = re.compile(r'^[A-Za-z0-9_]+$')
 NAMES = ['users', 'posts', 'orders', 'order_items', 'T1', 'x', 'select', 'table', 'Ref', 'note', 'enum', 'indexes',
          'my table', 'Таблица', 'we ird', 'a-b', 'semi;colon', 'curly{brace}', "quo'te", 'hash#tag', '1st']
 COLS = ['id', 'name', 'user_id', 'created_at', 'status', 'total', 'ref', 'pk', 'unique', 'null', 'as',
-        'my col', 'cöl', 'c,d', '(e)', 'x y z', 'notes', 'note_id', 'Note', 'indexes_count', 'enum_value', 'table_id', 'refs', 'default']
-SCHEMAS = ['public', 'auth', 'my schema', 'S2']
+        'my col', 'cöl', 'c,d', '(e)', 'x y z', 'notes', 'note_id', 'Note', 'indexes_count', 'enum_value', 'table_id', 'refs', 'default', 'ID', 'Name', 'User_ID']
+SCHEMAS = ['public', 'auth', 'my schema', 'S2', 'Public']
 TYPES = ['int', 'integer', 'varchar', 'varchar(255)', 'numeric(10,2)', 'numeric(10, 2)', 'int[]', 'text', 'timestamp',
          'decimal(1,2)', '"my type"', 'character varying']   # the last two only in quoted form
 NOTES = ['a note', 'x', 'two words', 'line one\nline two', 'first\n\nthird after empty', 'é 中 💸', "it's", 'say "hi"',
          'tick ` tock', 'hash # not comment', 'slash // not comment', 'a {brace}', 'indented\n  more\n    most',
-         'ends with quote\'', "'''triple inside'''", 'back\\\\slash', "two lines\nends with quote'", "four '''' quotes\nsecond line"]
+         'ends with quote\'', "'''triple inside'''", 'zero\ufeffwidth\ufeffjoiner',
+         'a single line that is rather long: ' + 'lorem ipsum dolor sit amet ' * 6, 'back\\\\slash', "two lines\nends with quote'", "four '''' quotes\nsecond line"]
 ACTIONS = ['cascade', 'restrict', 'set null', 'set default', 'no action']
 INDEX_TYPES = ['btree', 'hash', 'gin', 'gist', 'brin', 'spgist']
 COLORS = ['#fff', '#AbCdEf', '#123456', '#000']
 COMMENTS = ['a comment', 'c', 'two words here', 'with # and \' and "', 'second line', 'stars **', '*', 'x */ y'.replace(' */', ''),
-            'path C:\\legacy\\dumps\\', 'ends with backslash \\']
+            'path C:\\legacy\\dumps\\', 'ends with backslash \\', '{auto} payload: {"done": true}']
 
 
 class safe_pools:
@@ -142,9 +143,14 @@ def gen_schema(r, size=None, features=1.0):
         pk_layout = r.choice(['none', 'single', 'composite'])
         for i, cn in enumerate(r.sample(COLS, r.randint(1, 4))):
             tk = r.random()
+            foreign = [e for e in A['enums'] if e['schema'] != 'public' and BARE.match(e['name'])
+                       and not any(x['schema'] == 'public' and x['name'] == e['name'] for x in A['enums'])]
             if tk < 0.25 and A['enums']:
                 e = r.choice(A['enums'])
                 ty = ('enum', e['schema'], e['name'])
+            elif tk < 0.33 and foreign:
+                # a plain type that merely looks like an enum of ANOTHER schema: a bare name means schema public
+                ty = ('plain', r.choice(foreign)['name'])
             else:
                 ty = ('plain', r.choice(TYPES[:10]))
             dk = r.choice(['none'] * 5 + ['int', 'int0', 'float', 'true', 'false', 'null', 'str', 'str_empty', 'expr']) if f > 0 else 'none'
@@ -152,7 +158,8 @@ def gen_schema(r, size=None, features=1.0):
                  'float': ('float', r.choice(['1.5', '0.0', '10.25', '3.0', '0.5', '123.456', '52.5200066', '0.0012345678', '1234567.125', '0.1000001'])),
                  'true': ('bool', True), 'false': ('bool', False), 'null': ('null', None),
                  'str': ('str', r.choice(NOTES + ['true', 'NULL', '0'])), 'str_empty': ('str', ''),
-                 'expr': ('expr', r.choice(['now()', 'id * 2', "'a' || b", 'a + (b * c)', '']))}[dk]
+                 'expr': ('expr', r.choice(['now()', 'id * 2', "'a' || b", 'a + (b * c)', '', "regexp_replace(t, E'\\t|\\n', ' ')",
+                                            "split_part(p, '\\folder\\name', 1)", '(price) * (qty)']))}[dk]
             if d and d[0] == 'str':
                 d = ('str', d[1].replace('\n', ' '))
             cols.append({'name': cn, 'type': ty,
@@ -166,7 +173,7 @@ def gen_schema(r, size=None, features=1.0):
                 if r.random() < 0.75:
                     subs.append(('col', r.choice(cols)['name']))
                 else:
-                    subs.append(('expr', r.choice(['id*2', 'lower(name)', 'a + b', ''])))
+                    subs.append(('expr', r.choice(['id*2', 'lower(name)', 'a + b', '', "split_part(p, '\\folder\\name', 1)", '(a) || (b)'])))
             idxs.append({'subjects': subs, 'name': pick_text(r, ['idx', 'my index', "i'x"], 0.6), 'unique': r.random() < 0.3,
                          'type': r.choice(INDEX_TYPES) if r.random() < 0.3 else None, 'pk': r.random() < 0.2,
                          'note': pick_text(r, NOTES, 0.8), 'comment': None})
@@ -253,6 +260,8 @@ def add_comments(r, A):
     for x in A['refs']:
         if x['form'] != 'inline':
             x['comment'] = cm()
+            if x['comment'] and ('{' in x['comment'] or '}' in x['comment']):
+                x['comment'] = None        # D5: a brace in a reference comment reaches str.format in the SQL renderer
     for g in A['groups']:
         g['comment'] = cm()
     if A['project']:
